@@ -57,6 +57,7 @@ def run(ctx):
             for R in sorted({1, min(2, r), r} | ({rankA + 1} if rankA + 1 <= r else set())):
                 confs = [('rand', dict(oversample=P, n_iter=q)) for P in ((0, 2, 10) if ctx.quick() else (0, 1, 2, 5, 10)) for q in ((0, 1) if ctx.quick() else (0, 1, 2, 3))]
                 confs += [('pass', dict(oversample=P, n_passes=v)) for P in ((0, 3) if ctx.quick() else (0, 1, 3, 10)) for v in ((2, 3) if ctx.quick() else (2, 3, 4, 5))]
+                if ctx.quick(): confs += [('pass', dict(oversample=3, n_passes=v)) for v in (4, 5)]          # every pass count also in the quick tier (one oversampling)
                 for kind, kw in confs:
                     for seed in seeds:
                         inp = {'routine': 'rand_qsvd' if kind == 'rand' else 'pass_eff_qsvd', 'shape': [m, n], 'spectrum': cls, 'singular_values': [str(x) for x in sv], 'R': R, 'seed': seed, **kw}
